@@ -81,7 +81,7 @@ def jobs(tier, seed):
         out.append(_j('ND27', C.nt(stacks, game='NoLimitDeuceToSevenLowballSingleDraw'), dev_bound=3))
     for j in out:
         j.setdefault('state_cap', 500000 if th else 40000)
-        j.setdefault('time_cap', 600 if th else 45)
+        j.setdefault('time_cap', 1800 if th else 400)
     return out
 
 
